@@ -350,6 +350,31 @@ pub fn kinds(ver: Ver, w: usize, level: u8) -> Vec<Kind> {
     out
 }
 
+/// Dense single-field sweeps: one string / binary field at a time takes *every* length 0..=max_len (all other
+/// fields at their defaults). Catches slips that depend on a particular length value rather than on a
+/// boundary (a length byte that happens to equal an ASCII character, a modulus, ...).
+pub fn dense(ver: Ver, max_len: usize, f: &mut dyn FnMut(&str, &AP)) {
+    let v5 = ver == Ver::V5;
+    for l in 0..=max_len {
+        if l > 0 {
+            f(&format!("PUBLISH topic.len={l} (dense)"), &AP::Publish { ver, dup: false, qos: 1, retain: false, topic: s(l), pid: Some(1), props: vec![], payload: b"p".to_vec() });
+            f(&format!("SUBSCRIBE filter.len={l} (dense)"), &AP::Subscribe { ver, pid: 1, props: vec![], entries: vec![(s(l), 1)] });
+            f(&format!("UNSUBSCRIBE filter.len={l} (dense)"), &AP::Unsubscribe { ver, pid: 1, props: vec![], filters: vec![s(l)] });
+            f(&format!("CONNECT will.topic.len={l} (dense)"), &AP::Connect { ver, clean: true, keep_alive: 0, client_id: b"c".to_vec(), will: Some(Will { topic: s(l), payload: b"x".to_vec(), qos: 1, retain: false, props: vec![] }), user: None, pass: None, props: vec![] });
+        }
+        f(&format!("PUBLISH payload.len={l} (dense)"), &AP::Publish { ver, dup: false, qos: 0, retain: false, topic: b"a".to_vec(), pid: None, props: vec![], payload: s(l) });
+        f(&format!("CONNECT client_id.len={l} (dense)"), &AP::Connect { ver, clean: true, keep_alive: 0, client_id: s(l), will: None, user: None, pass: None, props: vec![] });
+        f(&format!("CONNECT user/password.len={l} (dense)"), &AP::Connect { ver, clean: true, keep_alive: 0, client_id: b"c".to_vec(), will: None, user: Some(s(l)), pass: Some(s(l)), props: vec![] });
+        f(&format!("CONNECT will.payload.len={l} (dense)"), &AP::Connect { ver, clean: true, keep_alive: 0, client_id: b"c".to_vec(), will: Some(Will { topic: b"w".to_vec(), payload: s(l), qos: 0, retain: true, props: vec![] }), user: None, pass: None, props: vec![] });
+        if v5 {
+            f(&format!("PUBACK reason-string.len={l} (dense)"), &AP::Ack { ver, kind: AckKind::Puback, pid: 1, code: Some(0x10), props: Some(vec![Prop { id: 0x1F, val: PVal::Str(s(l)) }]) });
+            f(&format!("PUBLISH user-property.len={l}/{l} (dense)"), &AP::Publish { ver, dup: false, qos: 0, retain: false, topic: b"a".to_vec(), pid: None, props: vec![Prop { id: 0x26, val: PVal::Pair(s(l), s(l)) }], payload: vec![] });
+            f(&format!("PUBLISH correlation-data.len={l} (dense)"), &AP::Publish { ver, dup: false, qos: 0, retain: false, topic: b"a".to_vec(), pid: None, props: vec![Prop { id: 0x09, val: PVal::Bin(s(l)) }], payload: vec![] });
+            f(&format!("DISCONNECT server-reference.len={l} (dense)"), &AP::Disconnect { ver, code: Some(0x9C), props: Some(vec![Prop { id: 0x1C, val: PVal::Str(s(l)) }]) });
+        }
+    }
+}
+
 /// Enumerate all packets of `k` with at most `d` deviating fields; long-length values are
 /// applied to at most two fields at a time (the stated bound). `f(label, packet)`.
 pub fn enumerate(k: &Kind, d: usize, f: &mut dyn FnMut(&str, &AP)) {
